@@ -16,6 +16,10 @@ def spec(tier):
                     fixed["c3"] = 2
                 obs.append(CH(name=f"protocol_tps{tps}_poll{poll}_s{int(s1)}{int(s2)}", harness="c19.rest_protocol", sym=sym, fixed=fixed,
                               timeout=1500))
+    # large allocations: the write-out of a suspended container lasts 2 (3) ticks, calls made meanwhile must show the pool as it is
+    for (tps, al, poll) in ((1, 40, 0), (2, 30, 1)) + (((1, 40, 1), (2, 30, 0), (1, 40, 3)) if th else ()):
+        obs.append(CH(name=f"protocol_writeout_tps{tps}_poll{poll}", harness="c19.rest_protocol", sym=dict(c0=I(0, 2), c1=I(0, 2), c2=I(0, 2), k0=I(0, 1), d0=I(1, 2)),
+                      fixed=dict(tps=tps, poll_ticks=poll, c3=2, c4=1, k1=0, s1=True, s2=False, d1=2, pools=2, K=8, alloc=al), timeout=1500))
     tsym = dict(c0=I(0, 2), c1=I(0, 2), c2=I(0, 2), c3=I(0, 2), d0=I(1, 2))
     tfix = dict(tps=1, poll_ticks=1, c4=1, k0=0, k1=0, s1=True, s2=False, d1=2, pools=2, K=8)
     for w in ("assigned", "complete_reported", "idle_call", "idle_skip", "suspended", "inadmissible_decision"):
